@@ -124,6 +124,19 @@ entry(
     "DESIGN.md section 2, C19",
 )
 
+entry(
+    "C07",
+    "Hypothesis property-based and history testing against a direct kriging solve + independent unconditional field, and against freshly built objects",
+    "Generated configurations (5 kriging variants x 8 classes x dim 1-3 x anisotropy/rotation x mean/trend/normalizer x layouts x seeds x meshes) are "
+    "compared with krige_est + sqrt(krige_var/var)*raw(seed) where the kriging part comes from solving the kriging system directly and raw from an "
+    "independent SRF; data honouring and the far-field limit are asserted. Generated call histories (new seeds, set_pos, set_condition with new values / "
+    "positions, in-place model change + documented refresh, re-assignment of model/mean/trend/normalizer, in-place edits of the caller's position "
+    "array) must after every generation equal a freshly built Krige+CondSRF. Exploration of bounded histories.",
+    "Trusted: model.covariance (C03), oracles/geometry.py, numpy.linalg; nugget-free models for the formula; shifts inside numpy.allclose's window are "
+    "a known finding (K8) probed on every run.",
+    "DESIGN.md section 2, C07",
+)
+
 
 def main():
     props = [json.loads(l) for l in open(os.path.join(VERIF, "properties.jsonl"))]
